@@ -9,6 +9,7 @@ import (
 	"encoding/hex"
 	"encoding/json"
 	"fmt"
+	"image"
 	"image/color"
 	"math/rand"
 
@@ -132,6 +133,90 @@ func digest(bc barcode.Barcode) string {
 		fmt.Fprintf(h, "|%#v|%#v", s.Background, s.Foreground)
 	}
 	return hex.EncodeToString(h.Sum(nil))[:32]
+}
+
+// digestOrdered computes the same value as digest, but calls the accessors of bc in a
+// different order: the scalar accessors first (in an order chosen by `order`), Bounds
+// last, and the pixels — over the bounds b known from another instance of the same
+// request — bottom-up right-to-left (order 0), column by column (1) or in a seed-chosen
+// permutation with every pixel read twice (2).  A barcode whose accessors compute or
+// cache anything on first use must not care.
+func digestOrdered(bc barcode.Barcode, b image.Rectangle, order int, rnd *rand.Rand) string {
+	var content string
+	var md barcode.Metadata
+	var cs int
+	var hasCS bool
+	var scheme barcode.ColorScheme
+	var hasScheme bool
+	readCS := func() {
+		if x, ok := bc.(barcode.BarcodeIntCS); ok {
+			cs, hasCS = x.CheckSum(), true
+		}
+	}
+	readScheme := func() {
+		if x, ok := bc.(barcode.BarcodeColor); ok {
+			scheme, hasScheme = x.ColorScheme(), true
+		}
+	}
+	w, h := b.Dx(), b.Dy()
+	px := make([][4]uint32, w*h)
+	at := func(i int) {
+		x, y := b.Min.X+i%w, b.Min.Y+i/w
+		r, g, bb, a := bc.At(x, y).RGBA()
+		px[i] = [4]uint32{r, g, bb, a}
+	}
+	switch order {
+	case 0:
+		readCS()
+		md = bc.Metadata()
+		for i := w*h - 1; i >= 0; i-- {
+			at(i)
+		}
+		content = bc.Content()
+		readScheme()
+	case 1:
+		readScheme()
+		content = bc.Content()
+		readCS()
+		for x := 0; x < w; x++ {
+			for y := 0; y < h; y++ {
+				at(y*w + x)
+			}
+		}
+		md = bc.Metadata()
+	default:
+		md = bc.Metadata()
+		perm := rnd.Perm(w * h)
+		for k, i := range perm {
+			at(i)
+			if k == len(perm)/2 {
+				readCS()
+				content = bc.Content()
+			}
+		}
+		for k := len(perm) - 1; k >= 0; k-- {
+			at(perm[k])
+		}
+		readScheme()
+	}
+	h2 := sha256.New()
+	fmt.Fprintf(h2, "%v|", bc.Bounds())
+	var buf [16]byte
+	for _, p := range px {
+		binary.LittleEndian.PutUint32(buf[0:], p[0])
+		binary.LittleEndian.PutUint32(buf[4:], p[1])
+		binary.LittleEndian.PutUint32(buf[8:], p[2])
+		binary.LittleEndian.PutUint32(buf[12:], p[3])
+		h2.Write(buf[:])
+	}
+	fmt.Fprintf(h2, "|%q|%v", content, md)
+	if hasCS {
+		fmt.Fprintf(h2, "|cs=%d", cs)
+	}
+	if hasScheme {
+		fmt.Fprintf(h2, "|%#v|%#v", scheme.Background, scheme.Foreground)
+	}
+	return hex.EncodeToString(h2.Sum(nil))[:32]
 }
 
 // outcome of one guarded library call.
